@@ -56,11 +56,12 @@ Record rpc := mkRpc {
   responses : list (N * N);    (* m_responses : id -> outstanding call *)
   nreq : N;                    (* number of requests handed to the service so far = identity of the next *)
   requests : list (N * N);     (* m_requests : id -> outstanding server-side request *)
-  cancelled : list N           (* superseded requests the service still holds (freed when it completes them) *)
+  cancelled : list N;          (* superseded requests the service still holds (freed when it completes them) *)
+  svc : N                      (* which service m_service points to (SetService); 0 = none *)
 }.
 
 Definition init_frame : frame := mkFrame 0 0 0 0 [] [] false.
-Definition init_rpc : rpc := mkRpc false 0 0 [] 0 [] [].
+Definition init_rpc : rpc := mkRpc false 0 0 [] 0 [] [] 0.
 
 Definition TXT_SEND_FAILED : list N :=
   [70;97;105;108;101;100;32;116;111;32;115;101;110;100;32;114;101;113;117;101;115;116].
@@ -93,13 +94,16 @@ Fixpoint delN (x : N) (l : list N) : list N :=
 
 (* field updates *)
 Definition set_dead (r : rpc) : rpc :=
-  mkRpc true (seq r) (ncalls r) (responses r) (nreq r) (requests r) (cancelled r).
+  mkRpc true (seq r) (ncalls r) (responses r) (nreq r) (requests r) (cancelled r) (svc r).
 Definition set_responses (r : rpc) (l : list (N * N)) : rpc :=
-  mkRpc (dead r) (seq r) (ncalls r) l (nreq r) (requests r) (cancelled r).
+  mkRpc (dead r) (seq r) (ncalls r) l (nreq r) (requests r) (cancelled r) (svc r).
 Definition next_call (r : rpc) : rpc :=
-  mkRpc (dead r) (u32 (seq r + 1)) (ncalls r + 1) (responses r) (nreq r) (requests r) (cancelled r).
+  mkRpc (dead r) (u32 (seq r + 1)) (ncalls r + 1) (responses r) (nreq r) (requests r) (cancelled r) (svc r).
 Definition set_server (r : rpc) (n : N) (rq : list (N * N)) (c : list N) : rpc :=
-  mkRpc (dead r) (seq r) (ncalls r) (responses r) n rq c.
+  mkRpc (dead r) (seq r) (ncalls r) (responses r) n rq c (svc r).
+(* RpcChannel::SetService *)
+Definition set_svc (r : rpc) (k : N) : rpc :=
+  mkRpc (dead r) (seq r) (ncalls r) (responses r) (nreq r) (requests r) (cancelled r) k.
 
 (* RpcHeader::DecodeHeader on the 4 header bytes in host (little-endian) order *)
 Definition hdr_word (h : list N) : N :=
@@ -112,10 +116,11 @@ Definition hdr_size (w : N) : N := N.land w SIZE_MASK.
 
 Section Model.
 Variable decode : list N -> option msg.        (* RpcMessage::ParseFromArray *)
-Variable method_kind : list N -> N.            (* FindMethodByName: 0 none, 1 method, 2 streaming method;
+(* the first argument of the next three is the service currently installed (svc) *)
+Variable method_kind : N -> list N -> N.       (* FindMethodByName: 0 none, 1 method, 2 streaming method;
                                                   3 = no service registered / no service descriptor *)
-Variable req_ok : list N -> bool.              (* request prototype ParseFromString *)
-Variable service : list N -> list N -> option sres.
+Variable req_ok : N -> list N -> bool.         (* request prototype ParseFromString *)
+Variable service : N -> list N -> list N -> option sres.
   (* what the service does with (method, request): Some = completes inside CallMethod,
      None = keeps the completion callback and completes later (OpComplete) *)
 
@@ -185,15 +190,15 @@ Definition supersede (cl sendok : bool) (r : rpc) (id : N) : rpc * list event :=
 (* HandleRequest.  A request whose id is already outstanding fails the old one towards the client
    and leaves it to be freed when the service completes it. *)
 Definition handle_request (cl sendok : bool) (r : rpc) (m : msg) : rpc * list event :=
-  if method_kind (m_name m) =? 3 then (r, [])
-  else if method_kind (m_name m) =? 0 then
+  if method_kind (svc r) (m_name m) =? 3 then (r, [])
+  else if method_kind (svc r) (m_name m) =? 0 then
     let '(r', evs, _) := send_msg cl sendok r (mkMsg RESPONSE_NOT_IMPLEMENTED (m_id m) [] []) in (r', evs)
-  else if negb (req_ok (m_buf m)) then (r, [])
+  else if negb (req_ok (svc r) (m_buf m)) then (r, [])
   else
     let q := nreq r in
     let '(r1, evs1) := supersede cl sendok r (m_id m) in
     let r2 := set_server r1 (nreq r1 + 1) ((m_id m, q) :: requests r1) (cancelled r1) in
-    match service (m_name m) (m_buf m) with
+    match service (svc r) (m_name m) (m_buf m) with
     | None => (r2, evs1 ++ [EvService (m_name m) (m_buf m)])
     | Some res =>
       let '(r3, evs3) := request_complete cl sendok r2 q res in
@@ -201,11 +206,11 @@ Definition handle_request (cl sendok : bool) (r : rpc) (m : msg) : rpc * list ev
     end.
 
 Definition handle_stream_request (cl sendok : bool) (r : rpc) (m : msg) : rpc * list event :=
-  if method_kind (m_name m) =? 3 then (r, [])
-  else if method_kind (m_name m) =? 0 then
+  if method_kind (svc r) (m_name m) =? 3 then (r, [])
+  else if method_kind (svc r) (m_name m) =? 0 then
     let '(r', evs, _) := send_msg cl sendok r (mkMsg RESPONSE_NOT_IMPLEMENTED (m_id m) [] []) in (r', evs)
-  else if negb (method_kind (m_name m) =? 2) then (r, [])
-  else if negb (req_ok (m_buf m)) then (r, [])
+  else if negb (method_kind (svc r) (m_name m) =? 2) then (r, [])
+  else if negb (req_ok (svc r) (m_buf m)) then (r, [])
   else (r, [EvService (m_name m) (m_buf m)]).
 
 (* the switch of HandleNewMsg *)
@@ -304,8 +309,9 @@ Inductive op :=
 | OpChunk (bs : list N) (sendok : bool)   (* bs become readable; sendok: replies can be written *)
 | OpCall (streaming : bool) (name req : list N) (sendok : bool)
                                           (* the application calls a method; sendok: Send() succeeds *)
-| OpComplete (q : N) (res : sres) (sendok : bool).
+| OpComplete (q : N) (res : sres) (sendok : bool)
                                           (* the service completes the request it was given as number q *)
+| OpSetService (k : N).                   (* the application calls SetService (0 = NULL) *)
 
 Definition step (f : frame) (r : rpc) (o : op) : frame * rpc * list event :=
   match o with
@@ -314,6 +320,7 @@ Definition step (f : frame) (r : rpc) (o : op) : frame * rpc * list event :=
     let '(r', evs) := call_method (closed f) sendok streaming name req r in (f, r', evs)
   | OpComplete q res sendok =>
     let '(r', evs) := request_complete (closed f) sendok r q res in (f, r', evs)
+  | OpSetService k => (f, set_svc r k, [])
   end.
 
 Fixpoint run (f : frame) (r : rpc) (ops : list op) : frame * rpc * list event :=
@@ -372,7 +379,7 @@ Definition oob (e : event) : bool :=
 (* vocabulary of the property statements *)
 (* healthy: every write to the peer succeeds (no jammed or failed send) *)
 Definition healthy (o : op) : bool :=
-  match o with OpChunk _ b => b | OpCall _ _ _ b => b | OpComplete _ _ b => b end.
+  match o with OpChunk _ b => b | OpCall _ _ _ b => b | OpComplete _ _ b => b | OpSetService _ => true end.
 Definition op_bytes (o : op) : list N := match o with OpChunk bs _ => bs | _ => [] end.
 (* the byte stream a script delivers, whatever its segmentation *)
 Definition stream (ops : list op) : list N := flat_map op_bytes ops.
@@ -397,9 +404,9 @@ Definition cntN (x : N) (l : list N) : nat := length (filter (fun y => y =? x) l
 (* ---- several channels in one process: the product machine ---- *)
 Section Multi.
 Variable decode : list N -> option msg.
-Variable method_kind : list N -> N.
-Variable req_ok : list N -> bool.
-Variable service : list N -> list N -> option sres.
+Variable method_kind : N -> list N -> N.
+Variable req_ok : N -> list N -> bool.
+Variable service : N -> list N -> list N -> option sres.
 
 Fixpoint upd {A} (i : nat) (x : A) (l : list A) : list A :=
   match l, i with
